@@ -258,6 +258,41 @@ def _call(job_):
     return job_[0](job_[1])
 
 
+COLLIDING = [-1, -2, 0, 2 ** 61 - 1, 'a']         # hash(-1) == hash(-2), hash(0) == hash(2**61 - 1) in CPython: unequal values, equal hashes
+
+
+def job_collide(args):
+    """Metadata values that are different but hash alike: every ordered pair (and triple) of keyword queries on one browser."""
+    (data_key,) = args
+    from valjean.eponine.browser import Browser
+    rep = Report()
+    glob = {'g': [1, 2], 'name': 'globals'}
+    shapes = [(v, w) for v in COLLIDING for w in (1, -1, -2)]
+    items = make_items(shapes, data_key)
+    case = {'items(k1,k2)': shapes, 'data_key': data_key}
+    single = [{'k1': v} for v in COLLIDING] + [{'k2': w} for w in (1, -1, -2)] + [{'k1': v, 'k2': w} for v in (-1, -2) for w in (-1, -2)]
+    for depth in (2, 3):
+        for seq in itertools.product(single, repeat=depth):
+            if depth == 3 and not all('k1' in q and 'k2' not in q for q in seq):
+                continue
+            brw = Browser(items, data_key=data_key, global_vars=glob)
+            for pos, query in enumerate(seq):
+                rep.evaluations += 1
+                want = [items[i] for i in scan(items, query, (), ())]
+                try:
+                    got = [strip(it) for it in brw.filter_by(**query).content]
+                except Exception as exc:  # pylint: disable=broad-except
+                    got = repr(exc)
+                if got != want:
+                    rep.violate(f'C17|history|hash-colliding-values|query#{pos + 1}', f'after {list(seq[:pos])}, filter_by({query}) selects '
+                                f'{[(i.get("k1"), i.get("k2")) for i in got] if isinstance(got, list) else got}, a scan '
+                                f'{[(i.get("k1"), i.get("k2")) for i in want]}', dict(case, queries=[repr(q) for q in seq]), size=depth)
+                    break
+            rep.case(nontrivial=repr(seq), outcome=('collide', depth))
+    rep.sample(dict(case, queries=[repr({'k1': -1}), repr({'k1': -2})]))
+    return rep
+
+
 def run(tier, seed):
     shapes = item_shapes()
     lists = [()] + [(s,) for s in shapes] + list(itertools.product(shapes, repeat=2))
@@ -271,6 +306,7 @@ def run(tier, seed):
             jobs.append((job, (lists[i:i + 12], data_key)))
         for nitems in ((9, 12, 17) if tier == 'quick' else (9, 10, 12, 17, 33, 70)):
             jobs.append((job_large, (nitems, data_key)))
+        jobs.append((job_collide, (data_key,)))
     rep = pool.pmap(_call, jobs, seed)
     rep.extra['queries'] = len(queries())
     rep.extra['item_lists'] = len(lists) * 2
